@@ -227,6 +227,19 @@ def runFreeCase (objs : List (String × Json)) (progs : List (List Op)) : Sx :=
   .list [.atom "free-obs", .list (.atom "threads" :: threads), .list (.atom "logs" :: logs),
          .list [.atom "slots", ofBool g.conn.reader, ofBool g.conn.writer], strAtom ""]
 
+/-- mirror of the harness' `timed` scenario: A sends, B tries while A waits, A receives -/
+def timedObjs (withhold : Nat) : List (String × Json) :=
+  [("org.example.client.Slow", .obj [("delay", .int withhold), ("thread", .int 0), ("token", .str "A")]),
+   ("org.example.client.Echo", .obj [("thread", .int 1), ("token", .str "B")])]
+
+def runTimedCase (withhold : Nat) : Sx :=
+  let g0 : GState := { objs := mkObjs (timedObjs withhold), progs := [[.call 0], [.call 1]] }
+  let g := runSched echoPeer decValue g0 [0, 1, 0]
+  let resOf (t : Nat) : Sx := match g.trace.find? (·.1 == t) with | some (_, r) => ofRes r | none => .atom "blocked"
+  .list [.atom "timed-obs", .list [.atom "a", resOf 0], .list [.atom "b", resOf 1, .atom "fast"],
+         .list (.atom "log" :: g.wire.log.map ofReq),
+         .list [.atom "slots", ofBool g.conn.reader, ofBool g.conn.writer]]
+
 def runCase : Sx → Option Sx
   | .list [.atom "kind", r] => do
     let r ← parseReply r
@@ -252,6 +265,7 @@ def runCase : Sx → Option Sx
     let objs ← parseObjs objs
     let progs ← parseProgs progs
     pure (runFreeCase objs progs)
+  | .list [.atom "timed", w, _] => (asNat w).map runTimedCase
   | _ => none
 
 /-! ### predicate glue -/
@@ -312,6 +326,11 @@ def predCase (cs os : Sx) : Verdict :=
     | _, _, _, _ => some "unparsable-seq-case-or-observation"
   | .list [.atom "gated", objs, progs, _],
     .list [.atom "obs", .list (.atom "res" :: res), .list (.atom "log" :: log), slots, _] =>
+    if res.any (fun r => match r with | .list [.atom "anomaly", a] => asStr a == some "stuck-in-operation" | _ => false) then
+      some "call-on-a-busy-connection-blocked-instead-of-failing-with-busy (a thread's operation neither returned nor reached its read)"
+    else if res.any (fun r => match r with | .list (.atom "anomaly" :: _) => true | _ => false) then
+      some "a-thread-did-not-return-from-reading-its-reply"
+    else
     match parseObjs objs, parseProgs progs, parseTrace res with
     | some objs, some progs, some tr =>
       let (lg, raw) := parseLog log
@@ -328,6 +347,24 @@ def predCase (cs os : Sx) : Verdict :=
       let raw := parsed.any (·.2)
       P_C07_threads { objs, progs } true per lg raw (parseSlots slots) true
     | _, _, _ => some "unparsable-free-case-or-observation"
+  | .list [.atom "timed", _, _], .list [.atom "timed-obs", .list [.atom "a", ra], .list [.atom "b", rb, speed], .list (.atom "log" :: log), slots] =>
+    -- B calls while A's reply is withheld: B must be refused at once and must not have written anything
+    let (lg, raw) := parseLog log
+    if raw then some "server-received-bytes-that-are-not-a-request" else
+    match parseRes rb with
+    | some (.err .connectionBusy) =>
+      if render speed != "fast" then some "call-on-a-busy-connection-blocked-instead-of-failing-with-busy"
+      else if lg.length != 1 then some "busy-call-wrote-a-request"
+      else (match parseRes ra with
+        | some (.ok p) => if tokenOf p == some "A" then
+            (match parseSlots slots with | some (true, true) => none | _ => some "connection-not-reusable-after-the-final-reply")
+            else some "reply-delivered-to-a-call-that-did-not-request-it"
+        | _ => some "outstanding-call-did-not-get-its-reply")
+    | some _ =>
+      if render speed != "fast" then some "call-on-a-busy-connection-blocked-instead-of-failing-with-busy"
+      else some "call-on-a-busy-connection-did-not-fail-with-busy"
+    | none => some "call-on-a-busy-connection-blocked-instead-of-failing-with-busy"
+  | _, .list [.atom "timeout", _] => some "case-did-not-finish-within-the-deadline (an operation blocked instead of returning)"
   | _, .list (.atom "panic" :: _) => some "panic"
   | _, _ => some "unparsable-case-or-observation"
 
